@@ -48,6 +48,8 @@ type Opts struct {
 	Salt           *string       `json:"salt"`
 	Seed           int64         `json:"seed"`
 	ChainRealms    int           `json:"chain_realms"` // additional realms R1..Rn linked in a referral chain behind TEST
+	ChainCycle     bool          `json:"chain_cycle"`  // the last chain realm refers back to R1 instead of holding the service
+	LenientCRealm  bool          `json:"lenient_authenticator_crealm"`
 }
 
 // DefaultOpts is the baseline configuration.
@@ -172,8 +174,17 @@ func New(o Opts) *World {
 		w.Chain = append(w.Chain, k)
 		prev = k
 	}
-	if o.ChainRealms > 0 {
+	if o.ChainRealms > 0 && !o.ChainCycle {
 		prev.AddKeyPrincipal([]string{"HTTP", "host.chain.gokrb5"}, svcEt)
+	}
+	if o.ChainRealms > 1 && o.ChainCycle {
+		simkdc.Link(prev, w.Chain[0])
+		prev.Referral[".chain.gokrb5"] = w.Chain[0].Realm
+	}
+	if o.LenientCRealm {
+		for _, k := range w.AllKDCs() {
+			k.LenientAuthCRealm = true
+		}
 	}
 	reg := func(addr string, k *simkdc.KDC) {
 		for _, n := range []string{"udp", "tcp"} {
